@@ -23,6 +23,7 @@ type keySpec struct {
 	BaseIV  rc.Hex         `json:"base_iv,omitempty"`
 	Extra   []rc.KV        `json:"extra,omitempty"`
 	Trim    bool           `json:"trim,omitempty"`  // emit x / y without their leading zero bytes (a peer that trims)
+	TrimD   bool           `json:"trim_d,omitempty"` // d without its leading zero bytes (what NewKeyFromPrivate stores: big.Int.Bytes(); d is emitted as held)
 	Shape   int            `json:"shape,omitempty"` // EC2: 0 x,y(,d); 1 d only; 2 x only (y absent); 3 y as bool (compressed point, RFC 9053 7.1.1)
 	SymK    rc.Hex         `json:"k,omitempty"`
 }
@@ -60,6 +61,9 @@ func (k *keySpec) val() rc.Val {
 		priv.D.FillBytes(d)
 		if k.Trim {
 			x, y = trimZeros(x), trimZeros(y)
+		}
+		if k.TrimD {
+			d = trimZeros(d)
 		}
 		add(-1, rc.Int(crvOf(k.Mat)))
 		switch k.Shape {
@@ -123,6 +127,7 @@ func genKeySpec(t *rapid.T) keySpec {
 		alg := rapid.SampledFrom([]int64{refcose.AlgES256, refcose.AlgES256, refcose.AlgES384, refcose.AlgES512}).Draw(t, "ecalg")
 		k.Mat = gen.KeyMat(t, alg)
 		k.Trim = rapid.IntRange(0, 3).Draw(t, "trim") == 0
+		k.TrimD = rapid.IntRange(0, 2).Draw(t, "trim-d") == 0
 		if rapid.IntRange(0, 4).Draw(t, "odd-shape") == 0 {
 			k.Shape = rapid.IntRange(1, 3).Draw(t, "shape")
 		}
